@@ -165,3 +165,69 @@ BOUNDED = [{"name": "class-families-and-specs", "script": "bounded/b14_class_pat
 
 from contracts.import_paths import units as import_path_units  # noqa: E402
 UNITS += import_path_units("C14")
+
+
+# ------------------------------------------------------------------------------------------------ group_instantiate_class (class groups: add_class_arguments)
+def gic_setup(ctx):
+    from contracts.ns_units import Branch, build, common as ns_common
+    scen = ["flat-group", "nested-group", "group-absent", "group-absent-nested-dest"][ctx.choose(4, "configuration")]
+    v = [z3.Int(f"arg{i}") for i in range(3)]
+    dest = {"flat-group": "g", "nested-group": "a.g", "group-absent": "g", "group-absent-nested-dest": "a.g"}[scen]
+    tree = {"flat-group": Branch(g=Branch(x=v[0], y=v[1]), other=v[2]), "nested-group": Branch(a=Branch(g=Branch(x=v[0], y=v[1]), z=v[2])), "group-absent": Branch(other=v[2]),
+            "group-absent-nested-dest": Branch(a=Branch(z=v[2]))}[scen]
+    cfg = build(tree)
+    cls = Rec("the group's class")
+    instance = Rec("instance")
+    group = Rec("ArgumentGroup", attrs={"dest": dest, "group_class": cls})
+
+    def instantiator(c, f, a, k):
+        kw = {kk: vv for kk, vv in k.items() if kk != "**"}
+        if "**" in k:  # **namespace: the namespace's items as keyword arguments
+            kw.update(k["**"].methods["__kwargs__"](c, k["**"], (), {}))
+        c.event("construct", a[0], a[1:], kw)
+        return instance
+
+    def get_value_and_parent(c, s_, a, k):
+        from contracts.ns_units import rec_at, MISSING
+        comps = a[0].split(".")
+        parent = rec_at(s_, comps[:-1])
+        val = rec_at(s_, comps)
+        if val is MISSING:
+            raise PyRaise(ExcVal("NSKeyError", (a[0],), origin="get_value_and_parent"))
+        return (val, parent, comps[-1])
+
+    cfg.methods["get_value_and_parent"] = get_value_and_parent
+    # **value of a namespace: its items as keyword arguments
+    for r in [cfg] + [x for x in cfg.attrs["__dict__"].values() if isinstance(x, Rec)] + [y for x in cfg.attrs["__dict__"].values() if isinstance(x, Rec) for y in x.attrs["__dict__"].values() if isinstance(y, Rec)]:
+        r.methods["__kwargs__"] = lambda c, s_, a, k: {kk.lstrip("​"): vv for kk, vv in s_.attrs["__dict__"].items()}
+    consts, inline = ns_common(ctx)
+    fnrec = Rec("instantiator", methods={"__call__": lambda c, s_, a, k: instantiator(c, s_, a, k)})
+
+    def symcall(c, f, a, k):
+        if f is fnrec:
+            return instantiator(c, f, a, k)
+        return NotImplemented
+
+    return Setup(env={"group": group, "cfg": cfg}, calls={"get_class_instantiator": lambda c, a, k: fnrec}, consts=consts, inline=inline, symcall=symcall,
+                 data=dict(scen=scen, dest=dest, cfg=cfg, cls=cls, instance=instance, v=v))
+
+
+def gic_post(ctx, st, result):
+    from contracts.ns_units import rec_at, view, m_leaves
+    d = st.data
+    tag = f"[{d['scen']}]"
+    cons = [e for e in ctx.events if e[0] == "construct"]
+    want_kwargs = {"x": d["v"][0], "y": d["v"][1]} if "absent" not in d["scen"] else {}
+    ok = len(cons) == 1 and cons[0][1] is d["cls"] and cons[0][2] == () and set(cons[0][3]) == set(want_kwargs) and all(cons[0][3][k] is want_kwargs[k] for k in want_kwargs)
+    ctx.oblige("post", "the-group's-class-is-constructed-exactly-once-with-exactly-the-group's-configured-values-as-keyword-arguments(none when the group is absent)" + tag, ok)
+    ctx.oblige("post", "the-instance-replaces-the-group's-section-under-the-group's-key" + tag, rec_at(d["cfg"], d["dest"].split(".")) is d["instance"])
+    others = [k for k, _ in m_leaves(view(d["cfg"])) if k != d["dest"]]
+    ctx.oblige("frame", "every-other-key-is-untouched" + tag, others == {"flat-group": ["other"], "nested-group": ["a.z"], "group-absent": ["other"], "group-absent-nested-dest": ["a.z"]}[d["scen"]])
+
+
+def gic_raises(ctx, st, exc):
+    ctx.oblige("raises", f"no-own-exception[{st.data['scen']}](got {exc.cls}@{exc.origin})", False)
+
+
+UNITS.append(Unit("C14", "jsonargparse._signatures:group_instantiate_class", gic_setup, gic_post, gic_raises,
+                  trusted=["cfg is a Namespace (C11 contracts); get_value_and_parent(key) returns (value, parent namespace, leaf key) or raises KeyError", "get_class_instantiator() calls the class with the given keyword arguments"]))
